@@ -49,6 +49,9 @@ func typeSwitchCases(info *types.Info, fd *ast.FuncDecl) (cases map[string]*ast.
 			if t != nil {
 				name = typeKey(t)
 			}
+			if name == "untyped nil" {
+				name = "nil"
+			}
 			cases[name] = cc
 			order = append(order, name)
 		}
